@@ -197,6 +197,10 @@ func runC03(ctx *Ctx) {
 			c03Legacy(ctx, i, drv, rng)
 			return
 		}
+		if i%20 == 5 || i%20 == 14 {
+			c03SharedConnection(ctx, i, drv, rng)
+			return
+		}
 		// the per-request cap on returned hosts is about peer requests only: a cut-off must reach
 		// every connected host the client peers with, however many that is
 		cfg := worldCfg{Drv: drv, Price: "1", IntervalNs: 1, Settle: true, MaxHosts: rng.Intn(3)}
@@ -270,6 +274,9 @@ func runC07(ctx *Ctx) {
 		}
 		if c < 2 && ctx.Want(900200+c) {
 			contractCase(ctx, 900200+c, ctx.Sub(900200+c), "many-accounts", "c07-", "c15-")
+		}
+		if c == 0 && ctx.Want(900300) {
+			c07Binary(ctx, 900300)
 		}
 	}
 	n := ctx.N(200, 5000)
